@@ -106,11 +106,85 @@ func c10Census(c *core.Ctx) (sources []unorderedSource, unorderedFns map[*ssa.Fu
 	if sync2Map != nil {
 		s2Range = c.DeclaredMethod(sync2Map, "Range")
 	}
+	// range forwarders: functions that do nothing with an unordered iteration but hand each entry to their own callback
+	// parameter (the typed wrapper around sync.Map.Range, and whatever that is layered on): their callers are the sources
+	forwarders := map[*ssa.Function]bool{}
+	if s2Range != nil {
+		forwarders[s2Range] = true
+	}
 	isRangePrim := func(com *ssa.CallCommon) bool {
 		if core.IsExtCall(com, "(*sync.Map).Range") {
 			return true
 		}
-		return s2Range != nil && core.IsCallTo(com, s2Range)
+		if cal := core.Callee(com); cal != nil && forwarders[cal] {
+			return true
+		}
+		return false
+	}
+	for changed := true; changed; {
+		changed = false
+		for _, fn := range c.Scope {
+			top := fn
+			if o := fn.Origin(); o != nil {
+				top = o
+			}
+			if fn.Parent() != nil || forwarders[top] || fn.Blocks == nil {
+				continue
+			}
+			var cbParams []*ssa.Parameter
+			for _, p := range fn.Params {
+				if _, isSig := p.Type().Underlying().(*types.Signature); isSig {
+					cbParams = append(cbParams, p)
+				}
+			}
+			if len(cbParams) != 1 || len(fn.Blocks) != 1 {
+				continue
+			}
+			var rangeCalls []ssa.CallInstruction
+			other := false
+			for _, ci := range core.Calls(fn) {
+				if isRangePrim(ci.Common()) {
+					rangeCalls = append(rangeCalls, ci)
+				} else if !core.IsLogCall(ci.Common()) {
+					other = true
+				}
+			}
+			if len(rangeCalls) != 1 || other {
+				continue
+			}
+			// the iteration's callback is the parameter itself, or a literal that only calls the parameter
+			okFwd := false
+			for _, a := range rangeCalls[0].Common().Args {
+				if a == ssa.Value(cbParams[0]) {
+					okFwd = true
+				}
+				if lit := core.ClosureOf(a); lit != nil && lit.Parent() == fn {
+					calls := core.Calls(lit)
+					only := len(calls) == 1
+					for _, lc := range calls {
+						ld, isLoad := lc.Common().Value.(*ssa.UnOp)
+						fv, isFV := lc.Common().Value.(*ssa.FreeVar)
+						if isLoad {
+							fv, isFV = ld.X.(*ssa.FreeVar)
+						}
+						if !isFV || lc.Common().IsInvoke() {
+							only = false
+							continue
+						}
+						_, isSig := fv.Type().Underlying().(*types.Signature)
+						if pt, isPtr := fv.Type().Underlying().(*types.Pointer); isPtr {
+							_, isSig = pt.Elem().Underlying().(*types.Signature)
+						}
+						only = only && isSig
+					}
+					okFwd = okFwd || only
+				}
+			}
+			if okFwd {
+				forwarders[top] = true
+				changed = true
+			}
+		}
 	}
 	// primary: map ranges and sync.Map ranges
 	for _, fn := range c.Scope {
@@ -126,7 +200,7 @@ func c10Census(c *core.Ctx) (sources []unorderedSource, unorderedFns map[*ssa.Fu
 							sources = append(sources, unorderedSource{key: "maprange@" + roleName(c, f), kind: "maprange", fn: f, in: in})
 						}
 					case ssa.CallInstruction:
-						if o := fn.Origin(); (o != nil && o == s2Range) || fn == s2Range {
+						if o := fn.Origin(); (o != nil && forwarders[o]) || forwarders[fn] {
 							continue // the wrapper forwards the iteration to its callback: its callers are the sources
 						}
 						if isRangePrim(x.Common()) {
@@ -164,29 +238,55 @@ func c10Census(c *core.Ctx) (sources []unorderedSource, unorderedFns map[*ssa.Fu
 		}
 		if _, isSl := top.Signature.Results().At(0).Type().Underlying().(*types.Slice); isSl && !sortCalls(top) {
 			unorderedFns[top] = true
+			if o := top.Origin(); o != nil {
+				unorderedFns[o] = true // an instance of a generic collector: calls are resolved to the generic function
+			}
 		}
 	}
 	// interface methods implemented by unordered functions
-	isUnorderedCall := func(com *ssa.CallCommon) bool {
+	// passName: a function that only hands on another unordered sequence is known by the name of what it hands on
+	passName := map[*ssa.Function]string{}
+	unorderedImpl := func(com *ssa.CallCommon) *ssa.Function {
 		if cal := com.StaticCallee(); cal != nil {
 			if o := cal.Origin(); o != nil {
 				cal = o
 			}
-			return unorderedFns[cal]
+			if unorderedFns[cal] {
+				return cal
+			}
+			return nil
 		}
 		if com.IsInvoke() {
+			var fs []*ssa.Function
 			for f := range unorderedFns {
+				fs = append(fs, f)
+			}
+			sort.Slice(fs, func(i, j int) bool { return fs[i].String() < fs[j].String() })
+			for _, f := range fs {
 				if f.Name() == com.Method.Name() && f.Signature.Recv() != nil {
 					if iface, ok := com.Value.Type().Underlying().(*types.Interface); ok {
 						rt := f.Signature.Recv().Type()
 						if types.Implements(rt, iface) || types.Implements(types.NewPointer(rt), iface) {
-							return true
+							return f
 						}
 					}
 				}
 			}
 		}
-		return false
+		return nil
+	}
+	isUnorderedCall := func(com *ssa.CallCommon) bool { return unorderedImpl(com) != nil }
+	nameOfCall := func(com *ssa.CallCommon) string {
+		name := ""
+		if com.Method != nil && com.IsInvoke() {
+			name = com.Method.Name()
+		} else if cal := core.Callee(com); cal != nil {
+			name = cal.Name()
+		}
+		if f := unorderedImpl(com); f != nil && passName[f] != "" {
+			name = passName[f]
+		}
+		return name
 	}
 	// pass-through closure and use sites
 	for changed := true; changed; {
@@ -202,6 +302,7 @@ func c10Census(c *core.Ctx) (sources []unorderedSource, unorderedFns map[*ssa.Fu
 				}
 				for _, ret := range core.Returns(fn) {
 					if len(ret.Results) > 0 && core.Norm(ret.Results[0]) == ssa.Value(call) && !sortCalls(fn) {
+						passName[fn] = nameOfCall(call.Common())
 						unorderedFns[fn] = true
 						changed = true
 					}
@@ -224,13 +325,7 @@ func c10Census(c *core.Ctx) (sources []unorderedSource, unorderedFns map[*ssa.Fu
 			if passThrough && unorderedFns[core.TopLevel(fn)] {
 				continue
 			}
-			name := call.Common().Method
-			callee := ""
-			if name != nil && call.Common().IsInvoke() {
-				callee = name.Name()
-			} else if cal := core.Callee(call.Common()); cal != nil {
-				callee = cal.Name()
-			}
+			callee := nameOfCall(call.Common())
 			if it := iteratorHelper(fn, call); it {
 				// a visitor: the function only hands each element to its callback; its call sites are the use sites
 				n := 0
@@ -401,17 +496,8 @@ func strictlySorted(c *core.Ctx, call *ssa.Call) (ssa.Value, string) {
 	}
 	switch {
 	case cal == c.Func("util/sort2", "Slice"):
-		cmp := core.ClosureOf(com.Args[1])
-		if cmp == nil || len(cmp.Blocks) != 1 {
-			return nil, "comparator is not a simple literal"
-		}
-		ret, isRet := cmp.Blocks[0].Instrs[len(cmp.Blocks[0].Instrs)-1].(*ssa.Return)
-		if !isRet {
-			return nil, "comparator shape"
-		}
-		b, isB := ret.Results[0].(*ssa.BinOp)
-		if !isB || b.Op != token.LSS || b.X != ssa.Value(cmp.Params[0]) || b.Y != ssa.Value(cmp.Params[1]) {
-			return nil, "comparator is not `a < b` on its two parameters"
+		if why := strictLessValue(c, com.Args[1], call.Parent(), 0); why != "" {
+			return nil, why
 		}
 		return core.Norm(com.Args[0]), ""
 	case cal.String() == "sort.Slice" || cal.String() == "sort.SliceStable":
@@ -595,7 +681,7 @@ func c10(c *core.Ctx, r *core.Report) {
 		pos := c.Pos(s.in.Pos())
 		switch {
 		// ---- primary sources
-		case s.key == "maprange@(*component_definition.Meta).GetAllProperties":
+		case s.kind == "maprange" && ufns[core.TopLevel(s.fn)] && isPropertySlice(c, core.TopLevel(s.fn).Signature.Results().At(0).Type()):
 			// SETLIKE: the result only feeds PostProcessProperties, whose per-property loops are independent
 			okUse := true
 			for _, cs := range c.CallSites(func(com *ssa.CallCommon) bool { return core.IsCallTo(com, core.TopLevel(s.fn)) }) {
@@ -605,6 +691,9 @@ func c10(c *core.Ctx, r *core.Report) {
 					}
 					if _, isDbg := rf.(*ssa.DebugRef); isDbg {
 						continue
+					}
+					if ret, isRet := rf.(*ssa.Return); isRet && ufns[core.TopLevel(ret.Parent())] {
+						continue // handed on: the use sites of that function are classified below
 					}
 					okUse = false
 				}
@@ -628,10 +717,10 @@ func c10(c *core.Ctx, r *core.Report) {
 			r.Check(okSorted, "C10.R1", cons, pos, "SORTED: the map range only collects keys, which are sorted with a strict `<` before they are visited or handed back "+why)
 		case s.kind != "use" && !reach[s.fn] && !reach[core.TopLevel(s.fn)]:
 			r.Hold("C10.R1", cons, pos, "UNUSED: not reachable from App.Run / App.Close on the CHA call graph")
-		case s.kind == "syncrange" && ufns[core.TopLevel(s.fn)]:
+		case (s.kind == "syncrange" || s.kind == "maprange") && ufns[core.TopLevel(s.fn)] && sliceResultOnlyAppends(s):
 			r.Hold("C10.R1", cons, pos, "collector: the enclosing function returns the collected slice unordered; every use site of its result is classified below")
 		// ---- use sites
-		case s.val != nil && strings.HasSuffix(s.key, "←GetAllProperties"):
+		case s.val != nil && s.kind == "use" && isPropertySlice(c, s.val.Type()):
 			okUse := true
 			for _, rf := range *s.val.Referrers() {
 				if call, isCall := rf.(*ssa.Call); isCall && core.IsInvoke(call.Common(), ro.IAProps) {
@@ -649,7 +738,7 @@ func c10(c *core.Ctx, r *core.Report) {
 			r.Hold("C10.R1", cons, pos, "SORTED: the creation order of refresh is independent of the enumeration order (refresh table, C10.R2)")
 		case s.key == "use@Factory.GetComponents←GetMetas":
 			r.Hold("C10.R1", cons, pos, "TIE-ONLY: the public multi-lookup returns matches in unspecified order; each element is resolved by name")
-		case s.val != nil && s.key == "use@InstantiationAwareComponentPostProcessor.PostProcessProperties←GetMetas":
+		case s.val != nil && strings.Replace(s.key, "$literal", "", 1) == "use@InstantiationAwareComponentPostProcessor.PostProcessProperties←GetMetas":
 			// SETLIKE: candidates only extend Injects; narrowing is permutation invariant
 			okApp := true
 			for _, rf := range *s.val.Referrers() {
@@ -1250,4 +1339,92 @@ func iteratorHelper(fn *ssa.Function, call *ssa.Call) bool {
 		}
 	}
 	return handed
+}
+
+// strictLessValue: v is a literal `func(a, b) bool { return a < b }`, or a parameter of the enclosing function for
+// which every in-scope call of that function passes such a comparator.  "" when it is, else why not.
+func strictLessValue(c *core.Ctx, v ssa.Value, in *ssa.Function, depth int) string {
+	if p, isParam := v.(*ssa.Parameter); isParam && depth < 2 && in != nil && in.Parent() == nil {
+		idx := -1
+		for i, q := range in.Params {
+			if q == p {
+				idx = i
+			}
+		}
+		target := in
+		if o := in.Origin(); o != nil {
+			target = o
+		}
+		sites := c.CallSites(func(com *ssa.CallCommon) bool { return core.IsCallTo(com, target) })
+		if idx < 0 || len(sites) == 0 || len(c.FuncValueUses(target)) != 0 {
+			return "the comparator is a parameter whose arguments cannot all be seen"
+		}
+		for _, cs := range sites {
+			args := cs.Common().Args
+			if idx >= len(args) {
+				return "the comparator is a parameter whose arguments cannot all be seen"
+			}
+			if why := strictLessValue(c, args[idx], cs.Parent(), depth+1); why != "" {
+				return why
+			}
+		}
+		return ""
+	}
+	cmp := core.ClosureOf(v)
+	if cmp == nil || len(cmp.Blocks) != 1 {
+		return "comparator is not a simple literal"
+	}
+	ret, isRet := cmp.Blocks[0].Instrs[len(cmp.Blocks[0].Instrs)-1].(*ssa.Return)
+	if !isRet {
+		return "comparator shape"
+	}
+	b, isB := ret.Results[0].(*ssa.BinOp)
+	if !isB || b.Op != token.LSS || b.X != ssa.Value(cmp.Params[0]) || b.Y != ssa.Value(cmp.Params[1]) {
+		return "comparator is not `a < b` on its two parameters"
+	}
+	return ""
+}
+
+// isPropertySlice: []*component_definition.Property.
+func isPropertySlice(c *core.Ctx, t types.Type) bool {
+	sl, ok := t.Underlying().(*types.Slice)
+	return ok && core.NamedOf(sl.Elem()) != nil && core.NamedOf(sl.Elem()) == c.Named("component_definition", "Property")
+}
+
+// sliceResultOnlyAppends: the range of a collector does nothing but append to the slice the function hands back (for
+// a sync.Map range the callback's body is judged where the collector rule always was: by its use sites).
+func sliceResultOnlyAppends(s unorderedSource) bool {
+	rng, ok := s.in.(*ssa.Range)
+	if !ok {
+		return s.kind == "syncrange"
+	}
+	var loop *core.Loop
+	for _, rf := range *rng.Referrers() {
+		if nx, isNext := rf.(*ssa.Next); isNext {
+			loop = core.InnermostLoop(s.fn, nx.Block())
+		}
+	}
+	if loop == nil {
+		return false
+	}
+	for b := range loop.Blocks {
+		for _, in := range b.Instrs {
+			switch x := in.(type) {
+			case ssa.CallInstruction:
+				bi, isB := x.Common().Value.(*ssa.Builtin)
+				if _, isCall := in.(*ssa.Call); !isCall || !isB || (bi.Name() != "append" && bi.Name() != "len") {
+					return false
+				}
+			case *ssa.Store:
+				if _, local := x.Addr.(*ssa.Alloc); !local {
+					if _, isIdx := x.Addr.(*ssa.IndexAddr); !isIdx {
+						return false
+					}
+				}
+			case *ssa.MapUpdate, *ssa.Send, *ssa.Go, *ssa.Defer:
+				return false
+			}
+		}
+	}
+	return true
 }
